@@ -52,4 +52,88 @@ theorem checkDecomp_sound (A : SpMat R) (p q : Array Nat) (blocks : List (SpMat 
   rw [this, hσ i, hτ j]
 
 end
+/-! ### connectivity of a block -/
+
+section
+variable {α : Type} [Scal α]
+
+/-- `S` (a set of vertices: row `i` ↦ `i`, column `j` ↦ `h + j`) splits the block: both sides non-empty and no
+stored non-zero entry joins a vertex of `S` with a vertex outside -/
+def Splits (B : SpMat α) (S : Nat → Prop) : Prop :=
+  (∃ v, v < B.nrows + B.ncols ∧ S v) ∧ (∃ v, v < B.nrows + B.ncols ∧ ¬ S v) ∧
+  ∀ j, j < B.ncols → ∀ e ∈ col B j, isZero e.2 = false → (S e.1 ↔ S (B.nrows + j))
+
+theorem mem_nzEdges {B : SpMat α} {e : Nat × Nat} (h : e ∈ nzEdges B) :
+    e.2 < B.ncols ∧ ∃ a, (e.1, a) ∈ col B e.2 ∧ isZero a = false := by
+  unfold nzEdges at h
+  obtain ⟨j, hj, he⟩ := List.mem_flatMap.1 h
+  obtain ⟨x, hx, hxe⟩ := List.mem_filterMap.1 he
+  by_cases hz : isZero x.2 = true
+  · simp [hz] at hxe
+  · simp only [hz, Bool.false_eq_true, if_false, Option.some.injEq] at hxe
+    subst hxe
+    exact ⟨List.mem_range.1 hj, x.2, hx, by simpa using hz⟩
+
+theorem getD_set_true (s : Array Bool) (i v : Nat) (h : (s.setIfInBounds i true).getD v false = true) :
+    s.getD v false = true ∨ v = i := by
+  by_cases hv : v = i
+  · exact Or.inr hv
+  · left
+    simpa [Array.getD_eq_getD_getElem?, Array.getElem?_setIfInBounds_ne (Ne.symm hv)] using h
+
+/-- marked vertices stay inside any edge-closed set containing the marked ones -/
+theorem sweep_inv (h : Nat) (es : List (Nat × Nat)) (P : Nat → Prop)
+    (hP : ∀ e ∈ es, (P e.1 ↔ P (h + e.2))) (s : Array Bool)
+    (hs : ∀ v, s.getD v false = true → P v) : ∀ v, (sweep h es s).getD v false = true → P v := by
+  unfold sweep
+  induction es generalizing s with
+  | nil => exact hs
+  | cons e es ih =>
+    rw [List.foldl_cons]
+    apply ih (fun e' h' => hP e' (by simp [h']))
+    have he := hP e (by simp)
+    split
+    · rename_i hc
+      intro v hv
+      rcases getD_set_true _ _ _ hv with hv | rfl
+      · rcases getD_set_true _ _ _ hv with hv | rfl
+        · exact hs v hv
+        · rcases Bool.or_eq_true_iff.1 hc with h1 | h1
+          · exact hs _ h1
+          · exact he.2 (hs _ h1)
+      · rcases Bool.or_eq_true_iff.1 hc with h1 | h1
+        · exact he.1 (hs _ h1)
+        · exact hs _ h1
+    · exact hs
+
+theorem sweeps_inv (h : Nat) (es : List (Nat × Nat)) (P : Nat → Prop)
+    (hP : ∀ e ∈ es, (P e.1 ↔ P (h + e.2))) (k : Nat) (s : Array Bool)
+    (hs : ∀ v, s.getD v false = true → P v) : ∀ v, (sweeps h es k s).getD v false = true → P v := by
+  induction k generalizing s with
+  | zero => exact hs
+  | succ k ih => exact ih _ (sweep_inv h es P hP s hs)
+
+/-- **soundness of the connectivity check**: an accepted block has no splitting -/
+theorem connectedBlk_sound (B : SpMat α) (hc : connectedBlk B = true) (S : Nat → Prop) : ¬ Splits B S := by
+  rintro ⟨⟨v1, hv1, hS1⟩, ⟨v2, hv2, hS2⟩, hedge⟩
+  unfold connectedBlk at hc
+  simp only [List.all_eq_true, List.mem_range] at hc
+  -- the side containing vertex 0
+  have key : ∀ P : Nat → Prop, P 0 → (∀ j, j < B.ncols → ∀ e ∈ col B j, isZero e.2 = false → (P e.1 ↔ P (B.nrows + j))) →
+      ∀ v, v < B.nrows + B.ncols → P v := by
+    intro P h0 hPe v hv
+    apply sweeps_inv B.nrows (nzEdges B) P _ _ _ _ v (hc v hv)
+    · intro e he
+      obtain ⟨h1, a, h2, h3⟩ := mem_nzEdges he
+      exact hPe e.2 h1 (e.1, a) h2 h3
+    · intro w hw
+      rcases getD_set_true _ _ _ hw with hw | rfl
+      · simp [Array.getD_eq_getD_getElem?] at hw
+        by_cases hlt : w < B.nrows + B.ncols <;> simp [hlt] at hw
+      · exact h0
+  by_cases h0 : S 0
+  · exact hS2 (key S h0 hedge v2 hv2)
+  · exact (key (fun v => ¬ S v) h0 (fun j hj e he hz => not_congr (hedge j hj e he hz)) v1 hv1) hS1
+
+end
 end Yuiv.C12
